@@ -38,11 +38,11 @@ type l16 struct {
 	dir    string
 	// the service whose black list was last replaced at once, the sources named by any of its lists so
 	// far, and how many probes are still aimed at those pairs
-	blDst  string
-	blSrcs map[string][]string
-	blAim  int
-	rule2  map[string]string // chain -> address of its second registered rule
-	votedBy map[string]map[int]bool
+	blDst    string
+	blSrcs   map[string][]string
+	blAim    int
+	rule2    map[string]string // chain -> address of its second registered rule
+	votedBy  map[string]map[int]bool
 	aimChain string
 	aimN     int
 	script   []func() (pb.Transaction, string, []string)
@@ -70,8 +70,6 @@ func (l *l16) scriptFrozenChainRuleChange(chain string) {
 		return w.BVM(harness.ChainAdmin(chain), harness.AddrRule, "UpdateMasterRule", pb.String(chain), pb.String(l.rule2[chain]), pb.String("r")), "UpdateMasterRule " + chain + " (scripted, chain frozen)", []string{chain, l.rule2[chain]}
 	}, approve(0), approve(1), approve(2))
 }
-
-
 
 const happyRule = "0x00000000000000000000000000000000000000a2"
 
